@@ -94,7 +94,7 @@ func NewEngine() *Engine {
 		heapSorts: map[string]string{}, heapPtrLike: map[string]bool{}, heapValKind: map[string]string{}, heapGoType: map[string]types.Type{},
 		funcIDs: map[*ssa.Function]int{}, idFuncs: map[int]*ssa.Function{}, closureIDs: map[*Closure]int{}, idClosures: map[int]*Closure{},
 		globalRefs: map[*ssa.Global]Term{}, loopInfo: map[*ssa.Function]*FuncLoops{}, writeSets: map[*ssa.Function]*WriteSet{},
-		siteNames: map[ssa.Instruction]string{}, abstractions: map[string]bool{}, maxStates: 60000,
+		siteNames: map[ssa.Instruction]string{}, abstractions: map[string]bool{}, maxStates: 3000,
 		funcsByKey: map[string]*ssa.Function{}, specCache: map[string]bool{}, coverHits: map[string]bool{}, funcsTouched: map[string]bool{},
 	}
 	return e
